@@ -41,6 +41,24 @@ add("C08", "Hypothesis-generated add/sample/update/reset histories with stub gen
     "taken from the buffer under test (C02/C04 decide those).",
     "DESIGN.md §5 C08")
 
+add("C09", "Differential re-run oracle over Hypothesis-generated training histories (two fresh runs + perturbed unseeded sources; cross-process PYTHONHASHSEED variant)",
+    "Every training routine (25 incl. CMA-ES) is run twice from freshly built, identically seeded objects on a scripted environment with a "
+    "generated history/config that exercises learning; before the second run numpy's and Python's global generators are re-seeded "
+    "differently and time.time is shifted; digests of all module/optimizer states, buffer contents, returned values, MemoryLogger records "
+    "and actions sent to the environment must be bit-identical. Eight routines are additionally run in two fresh interpreters with "
+    "different PYTHONHASHSEED. A third run with seed+1 must differ (non-vacuity).",
+    "Exploration with small counts (runs cost seconds): 2 generated cases per routine in the quick tier. Thread-scheduling dependence "
+    "inside XLA is out of reach (single-threaded XLA in the checks). Multi-task schedulers are exercised through their backbones only.",
+    "DESIGN.md §5 C09")
+add("C11", "Hypothesis-generated budgets / episode scripts / continuation calls on step-capped recording environments vs a history-invariant oracle; float64 reference model for the bandit selectors",
+    "Generated (routine, script, budget incl. 0 and 1, start step, episode limit, warm-up) histories for every training routine, the rollout "
+    "helper and the three multi-task schedulers (stub and real backbones); the environment log decides executed steps, episode "
+    "discipline and first-update time, which are compared with the returned counters and per-task totals. Selector op sequences are "
+    "checked for protocol alternation and against an independent float64 discounted-UCB recomputation.",
+    "Budgets <= 120 steps, delays 1-4; warm-up clause in its narrow reading (an update at step s fails only if s+1 < learning_starts); "
+    "recorded findings: batch collectors overshoot by less than one collection, zero-budget UnboundLocalError in the schedulers.",
+    "DESIGN.md §5 C11")
+
 NOT_APPLICABLE = {}
 
 
